@@ -1,6 +1,6 @@
 (* ApiV2/Props.v — property C15: the theorems, nothing else.
    Each is closed by [exact <lemma>] and followed by Print Assumptions. *)
-From Verif Require Import ApiV2.Model ApiV2.ProofsKey ApiV2.ProofsRegion ApiV2.ProofsStore ApiV2.ProofsPD ApiV2.ProofsProgram ApiV2.Catalogue.
+From Verif Require Import ApiV2.Model ApiV2.ProofsKey ApiV2.ProofsRegion ApiV2.ProofsStore ApiV2.ProofsPD ApiV2.ProofsProgram ApiV2.Pool ApiV2.ProofsPool ApiV2.Catalogue.
 Open Scope N_scope.
 
 (* --- keys --- *)
@@ -226,6 +226,49 @@ Theorem C15_reencoding_client_refuted : exists c k v,
 Proof. exact reencode_refuted. Qed.
 Print Assumptions C15_reencoding_client_refuted.
 
+(* --- the codec plumbing at object level: request pool, cloning, AttachContext, order of the calls (Pool.v) --- *)
+(* callers own the request objects below br and the messages below bm. For ANY schedule of transmissions of the callers'
+   requests (the same object any number of times, callers in any order) and ANY behaviour of the pool (hands out any
+   pooled object or a new one), every transmission reaches the wire with each key prefixed exactly once and a context
+   carrying api version + keyspace, and the invariant is kept: pooled objects are never the callers', the callers'
+   request objects and the keys of their messages are what they were *)
+Theorem C15_pool_safety : forall c br bm h0 sch h ws h', inv br bm h0 h -> Forall (fun ai => (fst ai < br)%nat) sch ->
+  sends real c sch h = (ws, h') ->
+  inv br bm h0 h' /\ ws = map (fun ai => wire_spec c h0 (fst ai)) sch.
+Proof. exact sends_real. Qed.
+Print Assumptions C15_pool_safety.
+
+Theorem C15_pool_callers_untouched : forall br bm h0 h, inv br bm h0 h ->
+  forall a, (a < br)%nat -> rh h a = rh h0 a /\ m_keys (mh h (r_inner (rh h a))) = m_keys (mh h0 (r_inner (rh h0 a))).
+Proof. exact callers_untouched. Qed.
+Print Assumptions C15_pool_callers_untouched.
+
+(* each deviation that was seeded into the code is refuted by a schedule of two or three transmissions *)
+Theorem C15_pool_decode_caller_refuted :
+  fst (sends (mkflags true false false false) demo_ks [(0, 0); (0, 0); (0, 0)]%nat demo_heap)
+  = [([[120; 0; 1; 2; 7]], Some true); ([[120; 0; 1; 2; 7]], Some true); ([[120; 0; 1; 2; 120; 0; 1; 2; 7]], Some true)].
+Proof. exact decode_caller_refuted. Qed.
+Print Assumptions C15_pool_decode_caller_refuted.
+
+Theorem C15_pool_in_place_refuted :
+  let '(ws, h) := sends (mkflags false true false false) demo_ks [(0, 0); (0, 0)]%nat demo_heap in
+  ws = [([[120; 0; 1; 2; 7]], Some true); ([[120; 0; 1; 2; 120; 0; 1; 2; 7]], Some true)] /\
+  m_keys (mh h 0%nat) = [[120; 0; 1; 2; 120; 0; 1; 2; 7]].
+Proof. exact in_place_refuted. Qed.
+Print Assumptions C15_pool_in_place_refuted.
+
+Theorem C15_pool_return_caller_refuted :
+  fst (sends (mkflags false false true false) demo_ks [(1, 0); (2, 0); (1, 0)]%nat demo_heap)
+  = [([], Some true); ([[120; 0; 1; 2; 9]], Some true); ([[120; 0; 1; 2; 120; 0; 1; 2; 9]], Some true)].
+Proof. exact return_caller_refuted. Qed.
+Print Assumptions C15_pool_return_caller_refuted.
+
+Theorem C15_pool_attach_first_refuted :
+  let '(ws, h) := sends (mkflags false false false true) demo_ks [(0, 0); (0, 0)]%nat demo_heap in
+  ws = [([[120; 0; 1; 2; 7]], Some false); ([[120; 0; 1; 2; 7]], Some false)] /\ r_inner (rh h 0%nat) <> 0%nat.
+Proof. exact attach_first_refuted. Qed.
+Print Assumptions C15_pool_attach_first_refuted.
+
 (* --- programs of transmissions: retransmissions, lost answers and region errors, any interleaving of clients --- *)
 (* every event is one transmission (the (n+1)-th of its request) that the store refuses with a region error describing
    a physical layout, executes without the answer arriving, or executes and answers. What client c learns - results,
@@ -296,6 +339,10 @@ Example ex_buckets :
     = Some [[]; [5]; []]
   /\ parse_keyspace_id [120; 0; 1; 2; 9] = Some 258 /\ parse_keyspace_id [109; 0; 1; 2] = None /\ parse_keyspace_id [120; 0; 1] = None.
 Proof. repeat split; vm_compute; reflexivity. Qed.
+Example ex_pool : inv 3%nat 3%nat demo_heap demo_heap /\
+  fst (sends real demo_ks [(0, 0); (1, 0); (0, 0); (2, 5); (1, 1); (0, 0)]%nat demo_heap)
+  = [([[120; 0; 1; 2; 7]], Some true); ([], Some true); ([[120; 0; 1; 2; 7]], Some true); ([[120; 0; 1; 2; 9]], Some true); ([], Some true); ([[120; 0; 1; 2; 7]], Some true)].
+Proof. split; [exact demo_inv|exact demo_real]. Qed.
 Example ex_program_with_retries :
   let a := mkks Raw 255 in let b := mkks Raw 256 in
   let phys := [([], [114;0;0;255;109]); ([114;0;0;255;109], [114;0;1]); ([114;0;1], [114;0;1;0]); ([114;0;1;0], [])] in
